@@ -418,3 +418,122 @@ Fixpoint balanced (d : nat) (ops : list pop) : bool :=
   | PStart _ _ :: r => Nat.eqb d 0 && balanced 1 r      (* enable_polling scopes do not nest *)
   | PStop :: r => Nat.eqb d 1 && balanced 0 r
   end.
+
+(* ------------------------------------------------------------------ PART D *)
+(* poll_singlethreaded (mpi_polling.cpp) — the polling function register_polling installs when
+   single_thread_mode_ = can_run_singlethreaded(mode) = enable_pool_ && !use_inline_request(mode), together
+   with the branch of add_to_request_callback_queue that this flag selects (push straight into the two
+   vectors, no queue, NO LOCK anywhere).  Same shared state [mstate], same ghost stages and log as PART A
+   ([ready] and [lock] are not used by this code and stay empty / None).  Atomic steps:
+     submitter (add_to_request_callback_queue, single_thread_mode_ branch):
+       SIdle/SoSubmit : the MPI call has produced a fresh request r; increment_global_activity_count()
+       SSCnt r k      : ++all_in_flight_
+       SSPush r k     : add_to_request_callback_vector: requests_.push_back, callbacks_.push_back
+     poller (poll_singlethreaded):
+       SIdle/SoPoll   : the scheduling loop calls the polling function
+       SCheck         : all_in_flight_.load() == 0 ? -> return idle
+       SDrain         : request_callback_queue_.try_dequeue -> add_to_request_callback_vector (the loop
+                        exists in the code; in this mode nothing is ever enqueued: MpiSingleProofs.si_rq)
+       STest          : MPI_Testany over requests_: rindex = idx (MPI frees the request and the code stores
+                        MPI_REQUEST_NULL in the slot), or MPI_UNDEFINED (SoNoTest: leave the do-while)
+       SDec idx r e   : --all_in_flight_
+       SCall idx r e  : PIKA_INVOKE(std::move(callbacks_[idx].cb_), status): the callable is invoked IN PLACE,
+                        i.e. the function object that runs is the element idx of callbacks_ at this moment
+                        (the model reads [nth_error (vcb g) idx] here, not at test time)
+       SInCb idx r    : the body of the callback runs.  What it does is chosen by the oracle, restricted by
+                        [inl]: SoSubmit is accepted only if [inl r] (the callback registered with r calls
+                        add_request_callback inline: the nested submitter steps carry the context
+                        k = Some (idx, r) and come back here), SoRet returns from the callback
+       SFin r         : decrement_global_activity_count(); event_handled = true -> loop again (SDrain)
+       SCompact       : compact_vectors(); return
+   [k : option (nat * req)] = the callback (slot, request) inside which a nested submission runs.
+   Every thread id may run every step (Base/Conc.v); the theorems assume [one_thread]: all steps are taken by
+   one OS thread (the dedicated pool has one worker and non-inline requests are transferred to it).  *)
+Inductive spc :=
+| SIdle
+| SSCnt (r : req) (k : option (nat * req))
+| SSPush (r : req) (k : option (nat * req))
+| SCheck | SDrain | STest
+| SDec (idx : nat) (r : req) (e : bool)
+| SCall (idx : nat) (r : req) (e : bool)
+| SInCb (idx : nat) (r : req)
+| SFin (r : req)
+| SCompact.
+
+Inductive soracle :=
+| SoSubmit | SoPoll
+| SoPick (k : nat)                (* which element try_dequeue returns (the queue is empty in this mode) *)
+| SoTest (idx : nat)              (* MPI_Testany reports index idx *)
+| SoNoTest                        (* MPI_Testany reports MPI_UNDEFINED *)
+| SoRet                           (* the running callback returns *)
+| SoMpi (r : req) (e : bool).     (* environment: MPI completes r *)
+
+Definition s_submit (t : nat) (g : mstate) (k : option (nat * req)) : mstate * spc :=
+  let r := next_req g in
+  (w_log (w_stage (w_activity (w_next g (S r)) (S (activity g))) r (StAct t)) (EvReg r), SSCnt r k).
+
+Definition sstep (inl : req -> bool) (o : soracle) (t : nat) (g : mstate) (l : spc) : mstate * spc :=
+  match o with
+  | SoMpi r e => (mpi_complete g r e, l)
+  | _ =>
+    match l with
+    | SIdle => match o with
+               | SoSubmit => s_submit t g None
+               | SoPoll => (g, SCheck)
+               | _ => (g, SIdle)
+               end
+    | SSCnt r k => (w_stage (w_inflight g (S (in_flight g))) r (StCnt t), SSPush r k)
+    | SSPush r k =>
+        (w_stage (w_vec g (vreq g ++ [Some r]) (vcb g ++ [(r, r)])) r StVec,
+         match k with None => SIdle | Some (idx, r0) => SInCb idx r0 end)
+    | SCheck => (g, if Nat.eqb (in_flight g) 0 then SIdle else SDrain)
+    | SDrain =>
+        match take_nth (match o with SoPick k => k | _ => 0 end) (rq g) with
+        | Some ((r, c), rest) =>
+            (w_stage (w_vec (w_rq g rest) (vreq g ++ [Some r]) (vcb g ++ [(c, r)])) r StVec, SDrain)
+        | None => (g, STest)
+        end
+    | STest =>
+        match o with
+        | SoTest idx =>
+            match nth_error (vreq g) idx with
+            | Some (Some r) =>
+                match done_status r (mpi_done g) with
+                | Some e =>
+                    (w_log (w_stage (w_vec g (set_nth idx None (vreq g)) (vcb g)) r (StHeld t)) (EvTest r),
+                     SDec idx r e)
+                | None => (g, STest)
+                end
+            | _ => (g, STest)
+            end
+        | SoNoTest => (g, SCompact)
+        | _ => (g, STest)
+        end
+    | SDec idx r e => (w_stage (w_inflight g (in_flight g - 1)) r (StDec t), SCall idx r e)
+    | SCall idx r e =>
+        match nth_error (vcb g) idx with
+        | Some (c, rr) => (w_log (w_stage g r (StCalled t)) (EvCall c rr e), SInCb idx r)
+        | None => (g, SInCb idx r)    (* index out of bounds: never taken (MpiSingleProofs.single_call_in_place) *)
+        end
+    | SInCb idx r =>
+        match o with
+        | SoSubmit => if inl r then s_submit t g (Some (idx, r)) else (g, SInCb idx r)
+        | SoRet => (g, SFin r)
+        | _ => (g, SInCb idx r)
+        end
+    | SFin r => (w_stage (w_activity g (activity g - 1)) r StFin, SDrain)
+    | SCompact => let '(a, b) := compact (vreq g) (vcb g) in (w_vec g a b, SIdle)
+    end
+  end.
+
+Definition s_locals : nat -> spc := fun _ => SIdle.
+Definition s_run (inl : req -> bool) (sched : list (nat * soracle)) : mstate * (nat -> spc) :=
+  run (sstep inl) sched (m_init, s_locals).
+
+(* all steps of the schedule are taken by the OS thread t0 *)
+Definition one_thread (t0 : nat) (sched : list (nat * soracle)) : Prop := Forall (fun so => fst so = t0) sched.
+(* a callback stored in callbacks_ is executing on the thread whose pc this is *)
+Definition in_callback (l : spc) : bool :=
+  match l with SInCb _ _ | SSCnt _ (Some _) | SSPush _ (Some _) => true | _ => false end.
+(* no callback performs an inline registration: what holds for every callback transform_mpi registers *)
+Definition no_inline_add (inl : req -> bool) : Prop := forall r, inl r = false.
